@@ -176,6 +176,22 @@ pub fn gen(seed: u64, idx: u64, tier: Tier) -> Scenario {
         }
         if i % 10 == 9 { sc.steps.push(Step::Ctl { name: "probe".into(), n: 0, a: vec![] }); }
     }
+    if r.chance(1, 12) {
+        // (e) inputs whose cost explodes in a naive implementation: a glob with many stars against a text that almost matches
+        let pat = format!("{}*b", "*a".repeat(r.range(14, 24) as usize));
+        let text = "a".repeat(r.range(40, 80) as usize);
+        match r.below(4) {
+            0 => {
+                sc.steps.push(Step::Connect { c: 90, inst: 0, buf: 0 });
+                sc.steps.push(Step::Send { c: 90, a: vec![b("PSUBSCRIBE"), b(&pat)], split: vec![] });
+                sc.steps.push(Step::Turns { n: 2 });
+                sc.steps.push(Step::Cmd { c: 1, a: vec![b("PUBLISH"), b(&text), b("x")], split: vec![] });
+            }
+            1 => { sc.steps.push(Step::Cmd { c: 1, a: vec![b("SET"), b(&text), b("1")], split: vec![] }); sc.steps.push(Step::Cmd { c: 1, a: vec![b("KEYS"), b(&pat)], split: vec![] }); }
+            2 => { sc.steps.push(Step::Cmd { c: 1, a: vec![b("SET"), b(&text), b("1")], split: vec![] }); sc.steps.push(Step::Cmd { c: 1, a: vec![b("SCAN"), b("0"), b("MATCH"), b(&pat), b("COUNT"), b("1000")], split: vec![] }); }
+            _ => { sc.steps.push(Step::Cmd { c: 1, a: vec![b("HSET"), b("kh2"), b(&text), b("1")], split: vec![] }); sc.steps.push(Step::Cmd { c: 1, a: vec![b("HSCAN"), b("kh2"), b("0"), b("MATCH"), b(&pat)], split: vec![] }); }
+        }
+    }
     sc.steps.push(Step::Adv { ns: 1_200_000_000 });
     sc.steps.push(Step::Ctl { name: "probe".into(), n: 1, a: vec![] });
     sc
@@ -264,7 +280,7 @@ fn verb_of(args: &[Vec<u8>]) -> String {
 pub static DEF: CheckDef = CheckDef {
     id: "C06", level: "exploration", gen, exec,
     nontrivial: |o| o.counters.get("cmds").copied().unwrap_or(0) + o.counters.get("hostile_frames").copied().unwrap_or(0) >= 20 && o.counters.get("probes").copied().unwrap_or(0) >= 1,
-    rule: "one run = 60-150 hostile inputs against a server holding keys of all six types and sentinel data: (a0) in every third run, 80 multi-argument command templates (stream, consumer-group, sorted-set range, scan, index, expiry, script commands) whose typed holes - key, group, consumer, stream id, number, string - are filled from boundary pools; (a) a systematic walk, indexed by the run number, over (every command name extracted from the dispatch match arms of /repo's server.rs and executor.rs at check time + a static list) x argument position x 50 boundary values (0, +-1, i64/u64/u32 bounds and beyond, 1e400, nan, inf, huge digit strings, option keywords, stream-id forms), sent directly, inside MULTI/EXEC and through redis.call; (b) random commands with several boundary arguments; (c) byte-level hostile frames (absurd declared lengths, 200k-deep nesting, truncated frames then close, random bytes); (d) blocked/subscribed/mid-transaction connections that vanish. Oracle after every 10 inputs and at the end: no thread of the server panicked, no exit(), no deadlock, no hang (watchdog), largest single allocation <= 2 x the server's own 512 MiB value cap + 64 MiB + 8 x bytes sent (allocator seam; a request for more than 8 GiB is refused, which aborts the process), and a NEW connection gets PONG and reads the sentinel data intact; non-trivial = at least 20 hostile inputs and one probe; distinct = distinct event-log hash",
+    rule: "one run = 60-150 hostile inputs against a server holding keys of all six types and sentinel data: (a0) in every third run, 80 multi-argument command templates (stream, consumer-group, sorted-set range, scan, index, expiry, script commands) whose typed holes - key, group, consumer, stream id, number, string - are filled from boundary pools; (a) a systematic walk, indexed by the run number, over (every command name extracted from the dispatch match arms of /repo's server.rs and executor.rs at check time + a static list) x argument position x 50 boundary values (0, +-1, i64/u64/u32 bounds and beyond, 1e400, nan, inf, huge digit strings, option keywords, stream-id forms), sent directly, inside MULTI/EXEC and through redis.call; (b) random commands with several boundary arguments; (c) byte-level hostile frames (absurd declared lengths, 200k-deep nesting, truncated frames then close, random bytes); (d) blocked/subscribed/mid-transaction connections that vanish; (e) in a twelfth of the runs a glob pattern with 14-24 stars against a 40-80 byte text that almost matches, through PSUBSCRIBE+PUBLISH, KEYS, SCAN MATCH and HSCAN MATCH (exponential backtracking would stall the single command thread). Oracle after every 10 inputs and at the end: no thread of the server panicked, no exit(), no deadlock, no hang (watchdog), largest single allocation <= 2 x the server's own 512 MiB value cap + 64 MiB + 8 x bytes sent (allocator seam; a request for more than 8 GiB is refused, which aborts the process), and a NEW connection gets PONG and reads the sentinel data intact; non-trivial = at least 20 hostile inputs and one probe; distinct = distinct event-log hash",
     quick_budget_s: 45.0, thorough_budget_s: 1200.0, quick_max_runs: 1_000_000, thorough_max_runs: 100_000_000, exhaustive: false, exhaustive_after: |_| 0,
     real: REAL_WHOLE_SERVER, stub: STUB_WHOLE_SERVER, assumptions: ASSUME_COMMON,
 };
